@@ -261,16 +261,184 @@ func (r *runner) initPool() []*big.Int {
 		v := zvec()
 		v[0] = k
 		r.pv = append(r.pv, v)
-		r.pts = append(r.pts, r.im.FreshPoint(r.lincomb(v)))
+		pt := r.im.FreshPoint(r.lincomb(v))
+		if r.rng.Bool() { // the same value in computed (non-normalised) form instead of freshly decoded
+			z := r.im.FreshPoint(r.lincomb(vec{r.rng.BigBelow(r.q), new(big.Int), new(big.Int)}))
+			pt = r.im.NewPoint().Sub(r.im.NewPoint().Add(pt, z), z)
+		}
+		r.pts = append(r.pts, pt)
 		init = append(init, r.flat(v))
 	}
 	for i := 0; i < ns; i++ {
 		k := r.rng.EdgeScalar(r.q)
 		r.sv = append(r.sv, k)
-		r.scs = append(r.scs, r.im.NewScalar(k))
+		r.scs = append(r.scs, r.scalarInState(k))
 		init = append(init, k)
 	}
 	return init
+}
+
+// scalarInState builds a scalar of value k in one of the internal states the API can produce: set
+// from bytes, or decoded by UnmarshalBinary from an unreduced encoding k + j*q (where accepted)
+func (r *runner) scalarInState(k *big.Int) kyber.Scalar {
+	im := r.im
+	if r.rng.Chance(40) {
+		probe := im.G.Scalar()
+		l := probe.MarshalSize()
+		max := new(big.Int).Lsh(big.NewInt(1), uint(8*l))
+		jmax := new(big.Int).Div(new(big.Int).Sub(new(big.Int).Sub(max, big.NewInt(1)), k), r.q)
+		if jmax.Sign() > 0 {
+			j := new(big.Int).Add(r.rng.BigBelow(jmax), big.NewInt(1))
+			if r.rng.Bool() {
+				j = jmax // the largest representative: top bits of the encoding set
+			}
+			v := new(big.Int).Add(k, new(big.Int).Mul(j, r.q))
+			b := v.FillBytes(make([]byte, l))
+			if probe.ByteOrder() == kyber.LittleEndian {
+				for i, n := 0, len(b); i < n/2; i++ {
+					b[i], b[n-1-i] = b[n-1-i], b[i]
+				}
+			}
+			ok := false
+			vh.Try(func() { ok = probe.UnmarshalBinary(b) == nil && hg.ScalarVal(probe).Cmp(k) == 0 })
+			if ok {
+				// the reference run works on copies BY VALUE: only representations on which the
+				// implementation itself computes by value can be compared with it.  (Found on the
+				// unchanged tree: edwards25519 Mul with a scalar decoded from an encoding >= 2^255 + l
+				// returns a wrong point - a correctness defect of Mul / UnmarshalBinary, outside C05.)
+				consistent := false
+				vh.Try(func() {
+					red := im.NewScalar(k)
+					consistent = hg.Enc(im.NewPoint().Mul(probe, im.Gen())) == hg.Enc(im.NewPoint().Mul(red, im.Gen())) &&
+						(!im.HasMulBase || hg.Enc(im.NewPoint().Mul(probe, nil)) == hg.Enc(im.NewPoint().Mul(red, nil))) &&
+						hg.ScalarVal(im.G.Scalar().Mul(probe, probe)).Cmp(hg.ScalarVal(im.G.Scalar().Mul(red, red))) == 0
+				})
+				if consistent {
+					r.rep.Dist("pool-scalar:unreduced-encoding")
+					return probe
+				}
+				r.rep.Dist("pool-scalar:unreduced-encoding-not-computed-by-value")
+				if !r.reported["note:repr"] {
+					r.reported["note:repr"] = true
+					r.rep.Note(im.Name + ": Mul(s, P) with a scalar decoded by UnmarshalBinary from the unreduced encoding 0x" + v.Text(16) +
+						" differs from Mul with the reduced scalar of the same value (not a C05 matter; such representations are used in the operand-state matrix only)")
+				}
+			}
+		}
+	}
+	return im.NewScalar(k)
+}
+
+// operandStates: every operation with a private receiver, on operands in every internal state the
+// API can produce (hg.PointForms / hg.ScalarForms: decoded from unreduced encodings, computed,
+// identities, constants, long SetBytes, Pick ...): what the API shows of the operand - encoding,
+// String, equality with a clone taken before - must be the same before and after
+func (r *runner) operandStates() {
+	im := r.im
+	other := func() kyber.Point { return hg.NonNormal(im, r.rng) }
+	otherS := func() kyber.Scalar { return im.NewScalar(r.rng.BigBelow(r.q)) }
+	sview := func(s kyber.Scalar) string { b, _ := s.MarshalBinary(); return vh.Hex(b) + "|" + s.String() }
+	pview := func(p kyber.Point) string { b, _ := p.MarshalBinary(); return vh.Hex(b) + "|" + p.String() }
+	type sop struct {
+		name string
+		f    func(s kyber.Scalar)
+	}
+	sops := []sop{
+		{"Mul", func(s kyber.Scalar) { im.NewPoint().Mul(s, other()) }},
+		{"Scalar.Add", func(s kyber.Scalar) { im.G.Scalar().Add(s, otherS()); im.G.Scalar().Add(otherS(), s) }},
+		{"Scalar.Sub", func(s kyber.Scalar) { im.G.Scalar().Sub(s, otherS()); im.G.Scalar().Sub(otherS(), s) }},
+		{"Scalar.Mul", func(s kyber.Scalar) { im.G.Scalar().Mul(s, otherS()); im.G.Scalar().Mul(otherS(), s) }},
+		{"Scalar.Neg", func(s kyber.Scalar) { im.G.Scalar().Neg(s) }},
+		{"Scalar.Set", func(s kyber.Scalar) { im.G.Scalar().Set(s) }},
+		{"Scalar.Clone", func(s kyber.Scalar) { s.Clone() }},
+		{"Scalar.Equal", func(s kyber.Scalar) { s.Equal(otherS()); otherS().Equal(s); s.Equal(s) }},
+		{"Scalar.MarshalBinary", func(s kyber.Scalar) { _, _ = s.MarshalBinary(); _ = s.String() }},
+		{"Scalar.Div", func(s kyber.Scalar) { im.G.Scalar().Div(s, im.NewScalar(big.NewInt(3))) }},
+	}
+	if im.HasMulBase {
+		sops = append(sops, sop{"MulBase", func(s kyber.Scalar) { im.NewPoint().Mul(s, nil) }})
+	}
+	for _, f := range hg.ScalarForms(im, r.rng) {
+		ops := sops
+		if new(big.Int).GCD(nil, nil, new(big.Int).Mod(hg.ScalarVal(f.Mk()), r.q), r.q).Cmp(big.NewInt(1)) == 0 {
+			ops = append(append([]sop{}, sops...), sop{"Scalar.Inv", func(s kyber.Scalar) { im.G.Scalar().Inv(s); im.G.Scalar().Div(otherS(), s) }})
+		}
+		for _, op := range ops {
+			key := ""
+			var before, after string
+			pan, msg := vh.Try(func() {
+				s := f.Mk()
+				keep := s.Clone()
+				eq0 := s.Equal(keep) && keep.Equal(s)
+				before = sview(s)
+				op.f(s)
+				after = sview(s)
+				if before != after || (s.Equal(keep) && keep.Equal(s)) != eq0 {
+					key = im.Name + "." + op.name + "/operand-changed{scalar " + f.Name + "}"
+				}
+			})
+			if pan {
+				r.rep.Fail(im.Name+"."+op.name+"/panic{scalar "+f.Name+"}", msg, nil)
+			} else if key != "" {
+				r.rep.Fail(key, "an operand (not the receiver) shows a different value after the call",
+					map[string]interface{}{"impl": im.Name, "operation": op.name, "operand_state": f.Name, "before": before, "after": after})
+			}
+			r.rep.Dist("operand-state:scalar " + f.Name)
+		}
+	}
+	type pop struct {
+		name string
+		f    func(p kyber.Point)
+	}
+	pops := []pop{
+		{"Add", func(p kyber.Point) {
+			im.NewPoint().Add(p, other())
+			im.NewPoint().Add(other(), p)
+			im.NewPoint().Add(p, p)
+		}},
+		{"Sub", func(p kyber.Point) {
+			im.NewPoint().Sub(p, other())
+			im.NewPoint().Sub(other(), p)
+			im.NewPoint().Sub(p, p)
+		}},
+		{"Neg", func(p kyber.Point) { im.NewPoint().Neg(p) }},
+		{"Set", func(p kyber.Point) { im.NewPoint().Set(p) }},
+		{"Mul", func(p kyber.Point) { im.NewPoint().Mul(otherS(), p) }},
+		{"Clone", func(p kyber.Point) { p.Clone() }},
+		{"Equal", func(p kyber.Point) { p.Equal(other()); other().Equal(p); p.Equal(p) }},
+		{"MarshalBinary", func(p kyber.Point) { _, _ = p.MarshalBinary(); _ = p.String() }},
+	}
+	if im.HasEmbed {
+		pops = append(pops, pop{"Data", func(p kyber.Point) { _, _ = p.Data() }})
+	}
+	for _, f := range hg.PointForms(im, r.rng) {
+		for _, op := range pops {
+			key := ""
+			var before, after string
+			pan, msg := vh.Try(func() {
+				p := f.Mk()
+				if im.Prep != nil {
+					im.Prep(p)
+				}
+				keep := p.Clone()
+				eq0 := p.Equal(keep) && keep.Equal(p)
+				before = pview(p)
+				op.f(p)
+				after = pview(p)
+				if before != after || (p.Equal(keep) && keep.Equal(p)) != eq0 {
+					key = im.Name + "." + op.name + "/operand-changed{point " + f.Name + "}"
+				}
+			})
+			if pan {
+				r.rep.Fail(im.Name+"."+op.name+"/panic{point "+f.Name+"}", msg, nil)
+			} else if key != "" {
+				r.rep.Fail(key, "an operand (not the receiver) shows a different value after the call",
+					map[string]interface{}{"impl": im.Name, "operation": op.name, "operand_state": f.Name, "before": before, "after": after})
+			}
+			r.rep.Dist("operand-state:point " + f.Name)
+		}
+	}
+	r.checkConstants("operand-state matrix", true)
 }
 
 func (r *runner) snapshot() []string {
@@ -844,6 +1012,7 @@ func merge(rep, sub *vh.Report) {
 	for _, x := range sub.Samples {
 		rep.Sample(x)
 	}
+	rep.Notes = append(rep.Notes, sub.Notes...)
 }
 
 func inPlaceMulOK(im *hg.Impl, rng *vh.Rng, rep *vh.Report) bool {
@@ -890,6 +1059,7 @@ func runImpl(im *hg.Impl, rng *vh.Rng, rep *vh.Report, itemsp *[]string, id, dra
 			d, p = (draws+1)/2, (progs+1)/2
 		}
 		r.cloneIndependence()
+		r.operandStates()
 		// a variable that received a value from the group itself (Base, Null, Mul by the base) or a
 		// constant scalar is re-used as the receiver of a later write; then the group's values are
 		// observed again (by the constants oracle after every call, and by Base / Mul(s,nil) calls in
@@ -1003,7 +1173,7 @@ func runImpl(im *hg.Impl, rng *vh.Rng, rep *vh.Report, itemsp *[]string, id, dra
 func main() {
 	o := vh.ParseFlags()
 	rep := vh.NewReport("C05", o.Seed, o.Tier)
-	rep.Rule = "per implementation: every mutating method x every aliasing pattern of receiver/operands x operand draws (single-call programs) + random programs of 6-12 calls over 4 point and 3 scalar variables; constant-reuse programs (Base/Null/Mul-by-base or a constant scalar, then a later write to the same variable, then the group values again); every implementation also on its opt-in paths (AllowVarTime, full-group curves, caller DST); oracles at every call: receiver = result, other variables unchanged, result = result on fresh copies, group constants and objects created at start-up unchanged; Clone/Set independence under every mutator; all observed values compared with the Coq transcriptions"
+	rep.Rule = "per implementation: every mutating method x every aliasing pattern of receiver/operands x operand draws (single-call programs) + random programs of 6-12 calls over 4 point and 3 scalar variables; constant-reuse programs (Base/Null/Mul-by-base or a constant scalar, then a later write to the same variable, then the group values again); every implementation also on its opt-in paths (AllowVarTime, full-group curves, caller DST); operand-state matrix (every operation with a private receiver on operands decoded from unreduced encodings, computed, identity, constants, Pick, long SetBytes: encoding/String/Equal of the operand before and after); pool values in unreduced / computed internal states; oracles at every call: receiver = result, other variables unchanged, result = result on fresh copies, group constants and objects created at start-up unchanged; Clone/Set independence under every mutator; all observed values compared with the Coq transcriptions"
 	rng := vh.NewRng(o.Seed)
 	var items []string
 	id := 0
